@@ -166,6 +166,50 @@ class SimFuture(object):
         return False
 
 
+class LockProxy(object):
+    """wraps the lock the worker created for itself; "threads" are logical (sim.thread is "main" or "pool"): the whole simulation
+    runs on one OS thread, so a lock that its logical holder takes again is either re-entrant or a deadlock of the real worker"""
+
+    def __init__(self, sim, inner):
+        self.sim = sim
+        self.inner = inner
+        self.reentrant = hasattr(inner, "_is_owned")
+        self.owner = None
+        self.depth = 0
+
+    def acquire(self, blocking=True, timeout=-1):
+        me = self.sim.thread
+        if self.owner == me:
+            if not self.reentrant:
+                self.sim.V("served-when-thread-free", "worker-deadlocks:lock-taken-again-by-its-holder",
+                           {"thread": me, "trace": self.sim.trace[-6:]})
+                raise StopSim("the worker deadlocked on its own lock")
+            self.depth += 1
+            return True
+        if self.owner is not None:
+            raise HarnessWedge("lock held by the other logical thread at a point where the simulation cannot switch threads")
+        self.owner = me
+        self.depth = 1
+        return True
+
+    def release(self):
+        self.depth -= 1
+        if self.depth <= 0:
+            self.owner = None
+            self.depth = 0
+
+    def __enter__(self):
+        self.acquire()
+        return self
+
+    def __exit__(self, *a):
+        self.release()
+        return False
+
+    def _is_owned(self):
+        return self.owner == self.sim.thread
+
+
 class SimPool(object):
     def __init__(self, sim):
         self.sim = sim
@@ -178,6 +222,10 @@ class SimPool(object):
         f.submitted_iter = self.sim.iteration
         self.queue.append(f)
         self.sim.on_submit(f)
+        if self.sim.eager and conn.sock.runnable() and len(self.on_thread()) <= self.sim.threads and f in self.on_thread():
+            # a pool thread picks the job up and finishes it before submit() has returned to the loop thread
+            self.sim.eager = False
+            self.sim.run_future(f, callbacks=False)
         return f
 
     def shutdown(self, wait=True, cancel_futures=False):
@@ -235,7 +283,11 @@ class SimPoller(object):
         if (self.sim.in_callback and isinstance(fileobj, SimSock) and fileobj.readable() and data is not None
                 and not w._lock._is_owned()):
             self.sim.trace.append(("loop-overtakes-unlocked-register", fileobj.cid, self.sim.clock))
-            data(fileobj)
+            prev, self.sim.thread = self.sim.thread, "main"
+            try:
+                data(fileobj)
+            finally:
+                self.sim.thread = prev
 
     def unregister(self, fileobj):
         if fileobj not in self.map:
@@ -302,6 +354,8 @@ class Sim(object):
         self.in_callback = False
         self.in_handler = False
         self.app_duration = 0
+        self.thread = "main"
+        self.eager = False
         self.late_data = False
         self.cancelled = []
         self.patient_clients = False
@@ -323,9 +377,24 @@ class Sim(object):
         w = G.ThreadWorker(1, os.getppid(), [self.listener], None, 30, cfg, log)
         w.tmp.close()
         w.notify = self.on_iteration
-        w.tpool = SimPool(self)
+        # the worker creates its pool, poller and lock itself (ThreadWorker.init_process); only the generic part of init_process
+        # (signals, privileges, application loading) is left out
+        sim0 = self
+        w.get_thread_pool = lambda: SimPool(sim0)
+        base_init = G.base.Worker.init_process
+        G.base.Worker.init_process = lambda self_: None
+        try:
+            G.ThreadWorker.init_process(w)
+        finally:
+            G.base.Worker.init_process = base_init
+        try:
+            w.poller.close()
+        except Exception:      # noqa
+            pass
+        if not isinstance(w.tpool, SimPool):
+            w.tpool = SimPool(self)
         w.poller = SimPoller(self)
-        w._lock = threading.RLock()
+        w._lock = LockProxy(self, getattr(w, "_lock", None) or threading.RLock())
         sim = self
 
         def app(environ, start_response):
@@ -433,16 +502,25 @@ class Sim(object):
         cand = [f for f in pool.on_thread() if f.conn_arg.sock.runnable() or f.conn_arg.sock.closed]
         if not cand:
             return False
-        f = cand[pick % len(cand)]
+        self.run_future(cand[pick % len(cand)])
+        return True
+
+    def run_future(self, f, callbacks=True):
+        """a pool thread runs the job; with callbacks=False the future is left "done" and its callbacks run wherever
+        add_done_callback() is called next (i.e. in the loop thread)"""
+        pool = self.worker.tpool
         self.in_handler = True
+        prev = self.thread
+        self.thread = "pool"
         try:
             f._result = f.fn(f.conn_arg)
-        except HarnessWedge:
+        except (HarnessWedge, StopSim):
             raise
         except BaseException as e:      # noqa
             f._exc = e
         finally:
             self.in_handler = False
+            self.thread = prev
         f.state = "done"
         pool.queue.remove(f)
         self.trace.append(("handled", f.conn_arg.sock.cid, self.clock))
@@ -451,13 +529,17 @@ class Sim(object):
             self.late_data = False
             f.conn_arg.sock.buf += REQ_KA
             f.conn_arg.sock.request_count += 1
+        if not callbacks:
+            self.trace.append(("finished-before-callback-attached", f.conn_arg.sock.cid, self.clock))
+            return
         self.in_callback = True
+        self.thread = "pool"
         try:
             for cb in f.callbacks:
                 cb(f)
         finally:
             self.in_callback = False
-        return True
+            self.thread = prev
 
     def apply(self, ev):
         kind = ev[0]
@@ -482,6 +564,8 @@ class Sim(object):
             self.late_data = True
             if not self.run_one_handler(ev[1]):
                 self.late_data = False
+        elif kind == "eager":
+            self.eager = True
         elif kind == "time":
             self.clock += ev[1]
         elif kind == "disconnect":
